@@ -1,4 +1,4 @@
-import MxModel.Proofs.CalcExec
+import MxModel.Proofs.CalcRun
 /-!
 # C16 – Memory-optimised runs: the plan made by `get_calcsteps`
 
@@ -208,13 +208,29 @@ theorem preds_pasted_until_needed (ordered : List Node) (succs : Node → List N
       · rw [if_neg hc] at hl; cases hl
   · left; rw [e]; exact hpB
 
-/-- **run_correct** Executing the plan on the abstract cache, starting with nothing held:
-for every program whose calls (`preds`) stay inside the planned elements and are recorded as
-successor edges, every topological order of distinct nodes, every target list and step size
-`≥ 1` (and any call-depth bound `≥ 1`): at the end exactly the targets are held, all of them
-value-pasted (marked as inputs), the trace graph has no edge left, and the formulas that ran are
-exactly the planned elements, in the planned order – so each once: nothing is recomputed because
-it was cleared too early, and nothing outside the plan is computed. -/
+/-- **run_correct_from** Executing the plan on the abstract cache from ANY cache that holds user
+inputs only, none of them a planned element (the cache `generate_actions` leaves, with whatever
+input values the user assigned): for every program whose calls go to planned elements – recorded as
+successor edges – or to those user inputs (calls through uncached cells are calls of the caller:
+`preds` lists the cached elements a formula reaches), every topological order of distinct nodes,
+every target list, step size `≥ 1` and call-depth bound `≥ 1`: at the end exactly the user inputs
+and the targets are held, the targets value-pasted, the trace graph has no edge, and the formulas
+that ran are exactly the planned elements, in the planned order – so each once: nothing is
+recomputed because it was cleared too early, nothing outside the plan is computed, no user input is
+touched. -/
+theorem run_correct_from (ordered : List Node) (succs preds : Node → List Node) (targets : List Node)
+    (size fuel : Nat) (c0 : Cache) (hz : 1 ≤ size) (ht : isTopo succs ordered = true) (hd : ordered.Nodup)
+    (h0 : c0.WF) (h0i : ∀ x ∈ c0.held, x ∈ c0.inputs) (h0d : ∀ x ∈ c0.held, x ∉ ordered)
+    (hp : ∀ n ∈ ordered, ∀ p ∈ preds n, (p ∈ ordered ∧ n ∈ succs p) ∨ p ∈ c0.held) :
+    (∀ x, x ∈ (execute preds (fuel + 1) (calcSteps ordered succs targets size) c0).held ↔
+        (x ∈ targets ∧ x ∈ ordered) ∨ x ∈ c0.held) ∧
+    (∀ x, x ∈ (execute preds (fuel + 1) (calcSteps ordered succs targets size) c0).inputs ↔
+        x ∈ (execute preds (fuel + 1) (calcSteps ordered succs targets size) c0).held) ∧
+    (execute preds (fuel + 1) (calcSteps ordered succs targets size) c0).edges = [] ∧
+    (execute preds (fuel + 1) (calcSteps ordered succs targets size) c0).log = c0.log ++ ordered :=
+  run_from ordered succs preds targets size fuel c0 hz ht hd h0 h0i h0d hp
+
+/-- **run_correct** The same from the empty cache, for programs whose calls stay inside the plan. -/
 theorem run_correct (ordered : List Node) (succs preds : Node → List Node) (targets : List Node)
     (size fuel : Nat) (hz : 1 ≤ size) (ht : isTopo succs ordered = true) (hd : ordered.Nodup)
     (hp : ∀ n ∈ ordered, ∀ p ∈ preds n, p ∈ ordered ∧ n ∈ succs p) :
@@ -224,32 +240,9 @@ theorem run_correct (ordered : List Node) (succs preds : Node → List Node) (ta
         x ∈ (execute preds (fuel + 1) (calcSteps ordered succs targets size) {}).held) ∧
     (execute preds (fuel + 1) (calcSteps ordered succs targets size) {}).edges = [] ∧
     (execute preds (fuel + 1) (calcSteps ordered succs targets size) {}).log = ordered := by
-  have key : ∀ m, SInv ordered succs targets size m
-      ((List.range m).foldl
-        (fun c k => execStep preds (fuel + 1) (stepAt ordered succs targets size k) c) {}) := by
-    intro m
-    induction m with
-    | zero =>
-      refine ⟨?_, ?_, rfl, by simp⟩
-      · intro x; simp [heldAt, pastedAt]
-      · intro x; simp
-    | succ m ih =>
-      rw [List.range_succ, List.foldl_append]
-      exact step_inv ordered succs targets size preds ht hd hp fuel m _ ih
-  have hrun : execute preds (fuel + 1) (calcSteps ordered succs targets size) {} =
-      (List.range (nSteps ordered succs targets size)).foldl
-        (fun c k => execStep preds (fuel + 1) (stepAt ordered succs targets size k) c) {} := by
-    unfold calcSteps
-    rw [execute_flatMap, planSteps_eq_map ordered succs targets size hz, List.foldl_map]
-  rw [hrun]
-  have inv := key (nSteps ordered succs targets size)
-  have hfull := List.take_of_length_le (nSteps_covers ordered succs targets size hz)
-  have hnil := finalPasted_nil ordered succs targets size hz ht
-  rw [finalPasted_eq] at hnil
-  refine ⟨?_, inv.inputs, inv.edges, by rw [inv.log, hfull]⟩
-  intro x
-  rw [inv.held]
-  simp [heldAt, hnil, hfull]
+  obtain ⟨a, b, c, d⟩ := run_from ordered succs preds targets size fuel {} hz ht hd
+    ⟨by simp, by simp⟩ (by simp) (by simp) (fun n hn p hpn => Or.inl (hp n hn p hpn))
+  exact ⟨fun x => by simpa using a x, b, c, by simpa using d⟩
 
 /-- **generate_leaves_nothing** `generate_actions` (tracing the targets, then clearing every
 element it calculated) leaves a cache that held user inputs only exactly as it found it: the same
@@ -261,6 +254,46 @@ theorem generate_leaves_nothing (preds : Node → List Node) (fuel : Nat) (targe
     (∀ x, x ∈ (generateLeaves preds fuel targets c).inputs ↔ x ∈ c.inputs) ∧
     (generateLeaves preds fuel targets c).edges = [] :=
   generateLeaves_spec preds fuel targets c h hc
+
+/-- **generate_plan_execute_correct** `generate_actions` composed with `execute_actions`, on a
+cache that holds user inputs only: trace the targets, plan ANY duplicate-free topological order
+(with respect to the trace edges the tracing recorded) of exactly the traced elements for the
+targets that are not user inputs, clear what was traced, execute.  If tracing ran to completion
+(`hdone`: when it ends, everything a traced element calls has a value – the call-depth bound was
+not hit), then at the end exactly the user inputs and the targets are held, all of them marked as
+inputs (the targets value-pasted), no trace edge is left, and the execution ran exactly the traced
+elements, each once, in the planned order.  `nx.topological_sort` is not modelled: the theorem holds
+for every order with the three stated properties (`hset`, `hd`, `ht`), which the correspondence
+run tests on every plan modelx returns. -/
+theorem generate_plan_execute_correct (preds : Node → List Node) (fuel fuel' : Nat)
+    (targets ordered : List Node) (size : Nat) (c : Cache) (hz : 1 ≤ size) (h : c.WF)
+    (hc : ∀ x ∈ c.held, x ∈ c.inputs)
+    (hdone : ∀ n ∈ calculated preds (fuel + 1) targets c, ∀ p ∈ preds n,
+      p ∈ (traceTargets preds (fuel + 1) targets c).held)
+    (hset : ∀ x, x ∈ ordered ↔ x ∈ calculated preds (fuel + 1) targets c) (hd : ordered.Nodup)
+    (ht : isTopo (succsOf (traceTargets preds (fuel + 1) targets c).edges) ordered = true) :
+    (∀ x, x ∈ (execute preds (fuel' + 1)
+        (calcSteps ordered (succsOf (traceTargets preds (fuel + 1) targets c).edges)
+          (targets.filter (fun t => !decide (t ∈ c.inputs))) size)
+        (generateLeaves preds (fuel + 1) targets c)).held ↔ x ∈ targets ∨ x ∈ c.held) ∧
+    (∀ x, x ∈ (execute preds (fuel' + 1)
+        (calcSteps ordered (succsOf (traceTargets preds (fuel + 1) targets c).edges)
+          (targets.filter (fun t => !decide (t ∈ c.inputs))) size)
+        (generateLeaves preds (fuel + 1) targets c)).inputs ↔
+      x ∈ (execute preds (fuel' + 1)
+        (calcSteps ordered (succsOf (traceTargets preds (fuel + 1) targets c).edges)
+          (targets.filter (fun t => !decide (t ∈ c.inputs))) size)
+        (generateLeaves preds (fuel + 1) targets c)).held) ∧
+    (execute preds (fuel' + 1)
+        (calcSteps ordered (succsOf (traceTargets preds (fuel + 1) targets c).edges)
+          (targets.filter (fun t => !decide (t ∈ c.inputs))) size)
+        (generateLeaves preds (fuel + 1) targets c)).edges = [] ∧
+    (execute preds (fuel' + 1)
+        (calcSteps ordered (succsOf (traceTargets preds (fuel + 1) targets c).edges)
+          (targets.filter (fun t => !decide (t ∈ c.inputs))) size)
+        (generateLeaves preds (fuel + 1) targets c)).log =
+      (generateLeaves preds (fuel + 1) targets c).log ++ ordered :=
+  generate_then_execute preds fuel fuel' targets ordered size c hz h hc hdone hset hd ht
 
 /-! ## Non-vacuity: the model of modelx's own test (`tests/core/model/test_actions.py`)
 
@@ -305,6 +338,91 @@ calculated (`4 0 3 2`) is cleared again -/
 example : calculated demoPreds 9 [4] { held := [1], inputs := [1] } = [4, 0, 3, 2] ∧
     generateLeaves demoPreds 9 [4] { held := [1], inputs := [1] } =
       { held := [1], inputs := [1], edges := [], log := [4, 0, 3, 2] } := by decide
+
+/-! ### runs that start from a non-empty cache, programs that read user inputs -/
+
+/-- `1` (`Cells2(0)`) is a user input: `Cells2(1)` reads it, it is not planned -/
+def demoPredsIn : Node → List Node
+  | 2 => [1]
+  | 3 => [2]
+  | 4 => [0, 3]
+  | _ => []
+
+def demoSuccsIn : Node → List Node
+  | 0 => [4]
+  | 2 => [3]
+  | 3 => [4]
+  | _ => []
+
+def inCache : Cache := { held := [1, 7], inputs := [1, 7] }
+
+example : inCache.WF := ⟨by decide, by decide⟩
+example : isTopo demoSuccsIn [0, 2, 3, 4] = true ∧ [0, 2, 3, 4].Nodup := by decide
+/-- the hypotheses of `run_correct_from` are met by a program that reads a user input -/
+example : ∀ n ∈ [0, 2, 3, 4], ∀ p ∈ demoPredsIn n,
+    (p ∈ [0, 2, 3, 4] ∧ n ∈ demoSuccsIn p) ∨ p ∈ inCache.held := by decide
+example : execute demoPredsIn 1 (calcSteps [0, 2, 3, 4] demoSuccsIn [4] 2) inCache =
+    { held := [1, 7, 4], inputs := [1, 7, 4], edges := [], log := [0, 2, 3, 4] } := by decide
+example : ∀ x, x ∈ (execute demoPredsIn 1 (calcSteps [0, 2, 3, 4] demoSuccsIn [4] 2) inCache).held ↔
+    (x ∈ [4] ∧ x ∈ [0, 2, 3, 4]) ∨ x ∈ inCache.held :=
+  (run_correct_from [0, 2, 3, 4] demoSuccsIn demoPredsIn [4] 2 0 inCache (by decide) (by decide)
+    (by decide) ⟨by decide, by decide⟩ (by decide) (by decide) (by decide)).1
+
+/-- the composed theorem on the same program: tracing `4` and the user input `1` from `inCache`
+runs `4 0 3 2`; `[0, 2, 3, 4]` is a topological order of the recorded edges -/
+example : calculated demoPredsIn 9 [4, 1] inCache = [4, 0, 3, 2] ∧
+    (traceTargets demoPredsIn 9 [4, 1] inCache).edges = [(0, 4), (1, 2), (2, 3), (3, 4)] ∧
+    isTopo (succsOf (traceTargets demoPredsIn 9 [4, 1] inCache).edges) [0, 2, 3, 4] = true := by decide
+example : ∀ x, x ∈ (execute demoPredsIn 1
+      (calcSteps [0, 2, 3, 4] (succsOf (traceTargets demoPredsIn 9 [4, 1] inCache).edges)
+        ([4, 1].filter (fun t => !decide (t ∈ inCache.inputs))) 2)
+      (generateLeaves demoPredsIn 9 [4, 1] inCache)).held ↔ x ∈ [4, 1] ∨ x ∈ inCache.held :=
+  (generate_plan_execute_correct demoPredsIn 8 0 [4, 1] [0, 2, 3, 4] 2 inCache (by decide)
+    ⟨by decide, by decide⟩ (by decide) (by decide)
+    (fun x => by
+      rw [show calculated demoPredsIn (8 + 1) [4, 1] inCache = [4, 0, 3, 2] from by decide]
+      simp only [List.mem_cons, List.not_mem_nil, or_false]
+      constructor <;> (intro h; rcases h with h | h | h | h <;> simp [h]))
+    (by decide) (by decide)).1
+
+/-! ### the full statements fail on a cache that already holds CALCULATED values
+(known finding C16-precomputed-values) -/
+
+/-- the cache after `Cells3(2)` was evaluated directly: everything held, nothing an input -/
+def usedCache : Cache := evalNode demoPreds 9 4 {}
+
+example : usedCache.WF ∧ usedCache.held = [0, 1, 2, 3, 4] ∧ usedCache.inputs = [] :=
+  ⟨⟨by decide, by decide⟩, by decide, by decide⟩
+
+/-- "generating the actions leaves no calculated values behind" is false for a model that holds
+calculated values: nothing is traced, nothing is cleared -/
+theorem generate_leaves_nothing_full_statement_fails :
+    ¬ ∀ (preds : Node → List Node) (fuel : Nat) (targets : List Node) (c : Cache), c.WF →
+      ∀ x ∈ (generateLeaves preds fuel targets c).held, x ∈ c.inputs := by
+  intro h
+  have := h demoPreds 9 [4] usedCache ⟨by decide, by decide⟩ 0 (by decide)
+  revert this; decide
+
+/-- … and the composed statement without "the cache holds user inputs only": the target is held,
+nothing is traced, the plan is empty, the execution does nothing, the values the target was
+calculated from stay (all the other hypotheses hold: `ordered = []`) -/
+theorem generate_plan_execute_full_statement_fails :
+    ¬ ∀ (preds : Node → List Node) (fuel fuel' : Nat) (targets ordered : List Node) (size : Nat)
+      (c : Cache), 1 ≤ size → c.WF →
+      (∀ n ∈ calculated preds (fuel + 1) targets c, ∀ p ∈ preds n,
+        p ∈ (traceTargets preds (fuel + 1) targets c).held) →
+      (∀ x, x ∈ ordered ↔ x ∈ calculated preds (fuel + 1) targets c) → ordered.Nodup →
+      isTopo (succsOf (traceTargets preds (fuel + 1) targets c).edges) ordered = true →
+      ∀ x, x ∈ (execute preds (fuel' + 1)
+        (calcSteps ordered (succsOf (traceTargets preds (fuel + 1) targets c).edges)
+          (targets.filter (fun t => !decide (t ∈ c.inputs))) size)
+        (generateLeaves preds (fuel + 1) targets c)).held → x ∈ targets ∨ x ∈ c.inputs := by
+  intro h
+  have := h demoPreds 8 0 [4] [] 2 usedCache (by decide) ⟨by decide, by decide⟩ (by decide)
+    (fun x => by
+      rw [show calculated demoPreds (8 + 1) [4] usedCache = [] from by decide])
+    (by decide) (by decide) 0 (by decide)
+  revert this; decide
 
 /-- a plan that clears too early is noticed by the cache model: the log shows the recomputation -/
 example : (execute demoPreds 5 [.doCalc [0, 1], .doClear [0], .doCalc [4]] {}).log =
